@@ -104,6 +104,9 @@ def diagnose(harness, features=None, timeout=900):
             vals.append("".join("%02x" % b for b in bs))
         values = vals
         break
+    if harness.endswith("_must_panic") and unwinding and not real:
+        real = ["the call returned although it must panic (unwinding failure of the post-call sentinel loop)"]
+        unwinding = False
     return {"failed_checks": real, "unwinding": unwinding and not real, "values": values, "log": log,
             "timed_out": timed_out, "still_fails": "VERIFICATION:- FAILED" in out}
 
@@ -126,6 +129,12 @@ def replay(harness, values, features=None):
     short = harness.split("::")[-1]
     p = subprocess.run([exe, short, ",".join(values or [])], capture_output=True, text=True, timeout=300)
     txt = (p.stdout + p.stderr).strip()
+    if short.endswith("_must_panic"):
+        # the contract is "the call panics": violated iff it returned (or nothing panicked at all)
+        if "the call returned although it must panic" in txt or p.returncode == 0:
+            return "violated", txt
+        if "outcome=VIOLATED" in txt:
+            return "holds", txt + "\n(the expected panic occurred)"
     if p.returncode == 1 and "outcome=VIOLATED" in txt:
         return "violated", txt
     if p.returncode == 0:
